@@ -4,7 +4,7 @@
    frame after it - for every number of threads and every interleaving) for the concurrency skeleton that the
    translator regenerates from /repo on every run (Gen/Skel.v). *)
 From Gws Require Import Lib.Base Model.CloseCode Spec.CloseReply Proofs.CloseProofs Gen.Funcs Proofs.GenCloseProofs.
-From Gws Require Import Skel.IR Skel.Checker Skel.Monitors Skel.GlobalClose Skel.Link Skel.Obligations.
+From Gws Require Import Skel.IR Skel.Checker Skel.Monitors Skel.GlobalClose Skel.Link Skel.Obligations Skel.OblClose.
 Local Open Scope N_scope.
 
 (* On receiving a Close frame with any body: the code and reason reported to the application are the peer's, and the
